@@ -85,7 +85,7 @@ CHECKS = {
             {"name": "race", "run": "^TestVerif_C18_Race$", "race": True, "tiers": ["thorough"], "shards": {"thorough": 1, "quick": 1},
              "harness": ["main/kit_test.go", "main/race_test.go"], "instrument": []},
         ],
-        "quick": {"shards": 16, "budget_s": 90},
+        "quick": {"shards": 16, "budget_s": 180},
         "thorough": {"shards": 16, "budget_s": 900},
     },
 }
